@@ -272,6 +272,41 @@ def run(ctx, replay=None):
         if a != m:
             corr('aconf', '%s: impl=%s model=%s' % (op[:400], a[:300], m[:300]))
     ctx.sample({'aconf-doc': spec_ops[min(11, len(spec_ops) - 1)], 'impl': il[min(11, len(il) - 1)] if il else ''})
+    # ---- blanks between the last argument of a section tag and its '>' that the one-blank-after-a-bare-word case above does not cover:
+    # after a quoted word, or two blanks.  The blanks belong to no argument (option lines are trimmed), so the expectation is the
+    # specification's answer for the tag as generated.  On the pinned tree the parser delivers an extra empty argument in these two cases
+    # (known finding): recognised as exactly that by comparing with the specification's answer for the tag with an explicit "" argument.
+    W = lambda *ws: [(b'' if k == 0 else b' ', st, t) for k, (st, t) in enumerate(ws)]
+    S_ = lambda words, body: ('S', b'', b'', words, body, b'', words[0][2], b'')
+    gt = [  # (document as generated, the same with an explicit empty last argument, (from, to) replacement in the rendered text)
+        ([S_(W(('b', b'Sec'), ('d0', b'a')), [])], [S_(W(('b', b'Sec'), ('d0', b'a'), ('d0', b'')), [])], (b'"a">', b'"a" >')),
+        ([S_(W(('b', b'Sec'), ('b', b'a')), [])], [S_(W(('b', b'Sec'), ('b', b'a'), ('d0', b'')), [])], (b'a>', b'a  >')),
+        ([S_(W(('b', b'Sec'), ('s0', b'x y'), ('b', b'z')), [('D', b'', b'', W(('b', b'N')))])], [S_(W(('b', b'Sec'), ('s0', b'x y'), ('b', b'z'), ('d0', b'')), [('D', b'', b'', W(('b', b'N')))])], (b'z>', b'z \t>')),
+        ([S_(W(('b', b'Sec'), ('b', b'a')), [S_(W(('b', b'Sub'), ('d0', b'x')), [])])], [S_(W(('b', b'Sec'), ('b', b'a')), [S_(W(('b', b'Sub'), ('d0', b'x'), ('d0', b'')), [])])], (b'"x">', b'"x" >')),
+    ]
+    gsl, err = run_model(ctx, [enc_aconf_doc(0, 0, t1, d) for g in gt for d in (g[0], g[1])])
+    gops, gexp = [], []
+    for k, g in enumerate(gt):
+        if 2 * k + 1 >= len(gsl) or ' ' not in gsl[2 * k] or ' ' not in gsl[2 * k + 1]:
+            continue
+        wf0, text0, e0 = gsl[2 * k].split(' ', 2)
+        wf1, text1, e1 = gsl[2 * k + 1].split(' ', 2)
+        t0 = unhex(text0)
+        if wf0 != 'wf' or g[2][0] not in t0:
+            continue
+        gops.append('ac 0 0 %s %s' % (enc_table(t1), hx(t0.replace(g[2][0], g[2][1], 1)))); gexp.append((e0, e1))
+    gil, gml, err = both_conf(ctx, exe, gops)
+    for k, op in enumerate(gops):
+        a = gil[k] if k < len(gil) else 'MISSING'
+        e0, e1 = gexp[k]
+        ctx.cov['evaluations'] += 1
+        ctx.count('aconf-blanks-before-gt')
+        kind = classify_ac(e0.rstrip(), a.rstrip())
+        if kind:
+            same_as_explicit = re.sub(r'^\S+ \S+ \S+', '', a.rstrip()) == re.sub(r'^\S+ \S+ \S+', '', e1.rstrip()) or a.split(' ')[0] == '-1'
+            sig = {'op': 'ac', 'observed': 'extra-empty-argument', 'when': 'blanks-before-closing-bracket-of-section-tag'} if same_as_explicit else {'op': 'ac', 'observed': kind}
+            ctx.report('impl-vs-spec', sig, 'Apache-style parser: blanks between the last argument of a section tag and its \'>\' (%s)' % sig['observed'],
+                       {'ops': [op], 'expected': e0, 'actual': a, 'with_explicit_empty_argument': e1})
     if example:
         ctx.sample({'examples/apacheconf.conf': il[-1][:300] if il else ''})
 
